@@ -59,6 +59,12 @@ CEX_LEAK = ["new local 2 1 1 1 1 0 0 0 1 1 1", "cserver 0 -", "cclient 0 -", "se
             "recvreq 0 0", "cclient 1 -", "send 1 1 2", "recvreq 0 1", "dpending 1 1", "dclient 1", "upd s 0"]
 
 
+CEX_LOAN = (["new local 1 2 1 2 1 0 1 0 0 2 1", "cserver 0 1", "cclient 0 -"] +
+            [l for i in (1, 2, 3, 4) for l in (f"send 0 {i} {i}0", f"recvreq 0 {i}", f"respond 0 {i} {i}1", f"respond 0 {i} {i}2",
+                                               f"dpending 0 {i}", f"dactive 0 {i}")] +
+            ["send 0 5 50", "recvreq 0 5", "respond 0 5 51", "respond 0 5 52"])
+
+
 def classify(case, idx, impl_out, model_out):
     op = case[idx][0].split(" ")
     if "ORACLE[" in impl_out:
@@ -96,6 +102,10 @@ def make_line_oracle():
             state["pend"].setdefault(op[1], set()).add(op[2])
         if op[0] == "dpending" and base == "ok":
             state["pend"].get(op[1], set()).discard(op[2])
+        if op[0] == "respond" and base == "err:loan:ExceedsMaxLoans":
+            # loan and send of a response are one call here: no loan is outstanding between calls, so this answer
+            # means that a loan counter got stuck (fixed by 1fb407e: must not come back)
+            return "line:loan-counter-stuck-after-failed-allocation"
         if op[0] == "send" and base == "err:loan:OutOfMemory":
             if len(state["pend"].get(op[1], ())) < state["cmax"].get(op[1], state["max"]):
                 return "line:loan-out-of-memory-within-limits"
@@ -118,6 +128,23 @@ def replay_known(ctx, name, ops, expect_line, expect_text, key, what):
     else:
         ctx.notes.append(f"recorded history `{name}` no longer shows `{expect_text}` (fixed upstream?)")
     ctx.log(f"[replay] {name}: behaviour {'reproduced' if shown else 'NOT reproduced'} on the implementation, model {'agrees' if agree else 'DIFFERS'}")
+
+
+def regression_case(ctx, name, ops, expect, key, what):
+    """a history that used to show a (since repaired) defect: implementation and model must agree and the
+    lines in `expect` (index -> output) must read as given; otherwise the defect is back: VIOLATION"""
+    impl, model = core.replay_case("reqres", ops)
+    ctx.evaluations += 1
+    base = [i.split(" ORACLE[", 1)[0] for i in impl]
+    agree = base == model[: len(impl)] and len(impl) == len(ops)
+    good = all(len(base) > (i % len(ops)) and base[i] == o for i, o in expect.items())
+    ctx.extra.setdefault("regression_histories", {})[name] = dict(ops=ops, impl=impl, model=model, as_repaired=good, model_agrees=agree)
+    if not agree:
+        ctx.violation(f"reqres.regression:{name}:model-differs", f"regression history `{name}`: implementation and model differ",
+                      dict(engine="seqdiff", component="reqres", ops=ops, impl=impl, model=model))
+    if not good:
+        ctx.violation(key, what, dict(engine="seqdiff", component="reqres", ops=ops, impl=impl, model=model))
+    ctx.log(f"[regression] {name}: {'as repaired' if good else 'DEFECT IS BACK'} on the implementation, model {'agrees' if agree else 'DIFFERS'}")
 
 
 def cleanup_leftovers():
@@ -192,8 +219,14 @@ def run(ctx):
         shrink_new(ctx)
         replay_known(ctx, "cross-client-routing", CEX_ROUTING, 10, "response delivered to a request of another client",
                      "reqres.replay:oracle:response-delivered-to-a-request-of-another-client", LOCAL_KNOWN[0]["what"])
-        replay_known(ctx, "non-fire-and-forget-borrow-leak", CEX_LEAK, 13, "PANIC", "reqres.replay:panic:leaked-borrow-expired-buffer",
-                     "Server::receive without fire-and-forget forgets the request of a client whose response connection is gone (see known_findings.json)")
+        # repaired in /repo (901028c, 1fb407e): the histories stay as regression cases
+        regression_case(ctx, "non-fire-and-forget-borrow-leak", CEX_LEAK, {7: "none", -1: "ok"}, "reqres.replay:panic:leaked-borrow-expired-buffer",
+                        "the borrow leak of Server::receive (fixed by 901028c) is back: update_connections ends in the fatal panic "
+                        "'Expired connection buffer exceeded' although the server holds one request of one vanished client")
+        regression_case(ctx, "loan-counter-after-failed-allocation", CEX_LOAN, {-2: "err:loan:OutOfMemory", -1: "err:loan:OutOfMemory"},
+                        "reqres.replay:line:loan-counter-stuck-after-failed-allocation",
+                        "the stuck loan counter of ActiveRequest::loan (fixed by 1fb407e) is back: after a loan that failed with OutOfMemory the "
+                        "active request answers ExceedsMaxLoans")
         ctx.extra["leftover_files_removed"] = cleanup_leftovers()
     return core.finish(ctx, level="proof", rule=RULE, extra_assumptions=ASSUME)
 
